@@ -120,6 +120,10 @@ let process line =
            | None -> "oob")
         | None -> "nofn")
      | _ -> "badcase")
+  | ["B"; bank; st; idx] ->
+    (* the bank status helpers of PGN 127501: set item idx to st, then read every item 0..29 of the result *)
+    let b' = bs_set (zhex bank) (z_of_string st) (z_of_string idx) in
+    "kB " ^ hex_of_z 16 b' ^ " " ^ String.concat "" (List.init 30 (fun i -> string_of_z (bs_get b' (z_of_int i))))
   | [] -> "skip"
   | _ -> "badcase"
 
